@@ -1,6 +1,9 @@
 //! avrosim - deterministic simulation with fault injection for apache-avro.
 
+mod anyvalue;
+mod c06;
 mod c13;
+mod c14;
 mod common;
 mod corpus;
 mod gen;
@@ -19,8 +22,16 @@ fn usage() -> ! {
 macro_rules! dispatch {
     ($id:expr, $p:ident => $body:expr) => {
         match $id {
+            "C06" => {
+                let $p = c06::C06;
+                $body
+            }
             "C13" => {
                 let $p = c13::C13;
+                $body
+            }
+            "C14" => {
+                let $p = c14::C14;
                 $body
             }
             other => {
